@@ -9,6 +9,7 @@ from ..exact import Unsupported, exact_values
 from .. import arith as A
 
 ID = 'C08'
+TECHNIQUE = 'runtime monitoring: + - * events with an imposed format (sizing policy, constant, out, out_like) decoded from the event and judged against exact result -> exact quantization under the governing configuration'
 TITLE = '+ - * into an imposed format = Q(exact result)'
 RULE = ('arithmetic events (+ - *) whose result format is imposed (sizing same/largest/smallest, constant operand with '
         'op_input_size same/best, out=, out_like=, config.op_out/op_out_like, np ufunc out=): result codes must equal '
